@@ -206,10 +206,19 @@ def synthetic_document(path):
             it("ADD"), it("PUSHLIB", "contracts/Other.sol:Other"), it("AND"), it("PUSH [$]", h(0)), it("PUSH", "0"), it("ADD"), it("PUSH #[$]", h(1)),
             it("MUL"), it("PUSH data", h(1)), it("PUSH", "0"), it("ADD"), it("PUSH [tag]", "0"), it("PUSHIMMUTABLE", h(0)), it("PUSH", "1"), it("MUL"),
             it("POP"), it("POP"), it("STOP")]
-    sub = {".auxdata": "a264697066", ".code": list(code), ".data": {h(0x0A11): "6080", "0": {".code": [it("PUSH", "0"), it("DUP1"), it("ADD"), it("INVALID")], ".data": {}}}}
+    # a second, different stream: several code-bearing entries next to each other at the top level and nested, and a second
+    # contract with code, so that streams cannot be mixed up without the skeleton comparison noticing
+    code2 = [it("tag", "7"), it("JUMPDEST"), it("PUSH", "1"), it("PUSH", "0"), it("ADD"), it("DUP1"), it("PUSH", "2A"), it("LOG1"), it("PUSH", "0"),
+             it("PUSH", "3"), it("MUL"), it("PUSH [tag]", "8"), it("JUMPI"), it("PUSH", "0"), it("DUP1"), it("REVERT"),
+             it("tag", "8"), it("JUMPDEST"), it("CALLVALUE"), it("PUSH", "0"), it("ADD"), it("POP"), it("PUSH", "0"), it("SELFDESTRUCT")]
+    leaf = {".code": [it("PUSH", "0"), it("DUP1"), it("ADD"), it("INVALID")], ".data": {}}
+    leaf2 = {".auxdata": "beef", ".code": [it("PUSH", "5"), it("PUSH", "0"), it("OR"), it("PUSH", "0"), it("MSTORE"), it("STOP")], ".data": {}}
+    sub = {".auxdata": "a264697066", ".code": list(code), ".data": {h(0x0A11): "6080", "0": leaf, "1": leaf2}}
+    sub2 = {".auxdata": "a26469706673", ".code": list(code2), ".data": {"0": dict(leaf2)}}
     doc = {"version": "0.8.19+commit.7dd6d404",
-           "contracts": {"a.sol:A": {"asm": {".code": list(code), ".data": {"0": sub, "1": "deadbeef"}, "sourceList": ["a.sol"]}},
-                         "b.sol:I": {"asm": None}}}
+           "contracts": {"a.sol:A": {"asm": {".code": list(code), ".data": {"0": sub, "1": "deadbeef", "2": sub2}, "sourceList": ["a.sol"]}},
+                         "b.sol:I": {"asm": None},
+                         "c.sol:C": {"asm": {".code": list(code2), ".data": {"0": sub2, "1": sub}, "sourceList": ["c.sol", "a.sol"]}}}}
     with open(path, "w") as f:
         json.dump(doc, f)
     return path
